@@ -1,3 +1,4 @@
+use std::convert::TryFrom;
 use std::collections::{BTreeMap, HashMap, HashSet};
 use std::hash::{Hash, Hasher};
 use std::ops::Add;
@@ -476,6 +477,11 @@ impl GroupAggregator {
                     |x, y| { *x = x.add(y) }
                 );
                 *count = count.checked_add(1).ok_or(ExecutionError::NumericOverflow)?;
+
+                // An INTERVAL can only be divided by an i32: a larger count must not be cut down to its low bits
+                if matches!(sum, Value::Interval(_)) && i32::try_from(*count).is_err() {
+                    return Err(ExecutionError::NumericOverflow);
+                }
 
                 let average = sum.map_numeric(
                     |x| Some(x / *count),
